@@ -504,6 +504,13 @@ func endsWithReturn(l []ast.Stmt) bool {
 	return ok
 }
 
+func splitRoot(e string) (string, string) {
+	if i := strings.IndexAny(e, ".["); i >= 0 {
+		return e[:i], e[i:]
+	}
+	return e, ""
+}
+
 func lstr(s string) string { return "\"" + strings.ReplaceAll(strings.ReplaceAll(s, "\\", "\\\\"), "\"", "\\\"") + "\"" }
 func llist(xs []string) string {
 	q := make([]string, len(xs))
@@ -594,7 +601,11 @@ func main() {
 		if i == len(fns)-1 {
 			sep = ""
 		}
-		fmt.Fprintf(&b, "  { pkg := %s, name := %s, recv := %s, params := %s, exported := %v }%s\n", lstr(f.pkg), lstr(f.name), lstr(f.recv), llist(f.params), f.exported, sep)
+		short := f.name
+		if i := strings.LastIndex(short, "."); i >= 0 {
+			short = short[i+1:]
+		}
+		fmt.Fprintf(&b, "  { pkg := %s, name := %s, short := %s, recv := %s, params := %s, exported := %v }%s\n", lstr(f.pkg), lstr(f.name), lstr(short), lstr(f.recv), llist(f.params), f.exported, sep)
 	}
 	b.WriteString("]\n\ndef lockFacts : List Fact := [\n")
 	for i, f := range facts {
@@ -602,8 +613,14 @@ func main() {
 		if i == len(facts)-1 {
 			sep = ""
 		}
-		fmt.Fprintf(&b, "  { kind := %s, pkg := %s, fn := %s, line := %d, field := %s, write := %v, owner := %s, okind := %s, callee := %s, args := %s, akinds := %s, held := %s, note := %s }%s\n",
-			lstr(f.kind), lstr(f.pkg), lstr(f.fn), f.line, lstr(f.field), f.write, lstr(f.owner), lstr(f.okind), lstr(f.callee), llist(f.args), llist(f.akinds), llist(f.held), lstr(f.note), sep)
+		or, os_ := splitRoot(f.owner)
+		var ar, as []string
+		for _, a := range f.args {
+			r, s2 := splitRoot(a)
+			ar, as = append(ar, r), append(as, s2)
+		}
+		fmt.Fprintf(&b, "  { kind := %s, pkg := %s, fn := %s, line := %d, field := %s, write := %v, oroot := %s, orest := %s, okind := %s, callee := %s, aroots := %s, arests := %s, akinds := %s, held := %s, note := %s }%s\n",
+			lstr(f.kind), lstr(f.pkg), lstr(f.fn), f.line, lstr(f.field), f.write, lstr(or), lstr(os_), lstr(f.okind), lstr(f.callee), llist(ar), llist(as), llist(f.akinds), llist(f.held), lstr(f.note), sep)
 	}
 	b.WriteString("]\n\nend Avfs.Generated\n")
 	old, _ := os.ReadFile(out)
